@@ -3060,8 +3060,12 @@ evhttp_make_request(struct evhttp_connection *evcon,
 
 	TAILQ_INSERT_TAIL(&evcon->requests, req, next);
 
-	/* We do not want to conflict with retry_ev */
-	if (evcon->retry_cnt)
+	/* We do not want to conflict with retry_ev: while a retry is
+	 * scheduled it will connect and dispatch what is queued.  (A non-zero
+	 * retry_cnt alone does not mean that: the retry may have fired, and
+	 * its connect may have been given up since.) */
+	if (event_initialized(&evcon->retry_ev) &&
+	    evtimer_pending(&evcon->retry_ev, NULL))
 		return (0);
 
 	/* If the connection object is not connected; make it so */
